@@ -121,13 +121,21 @@ TrlOK(r) ==
                /\ (r.out = "throw" => r.untouched /\ (one => r.ref = "throw" \/ r.hm))
 
 NanfOK(r) == r.out = "ok" /\ (IF r.w = 0 THEN r.zone # INVALID /\ ~r.allnan ELSE r.zone = INVALID /\ r.allnan)
+\* NaN latitude (w odd) and / or longitude (w >= 2) with a requested zone sz: never an error; the coordinates are NaN, and so are
+\* the convergence and scale where they depend on the NaN argument (in UPS the convergence depends on the longitude only and the
+\* scale on the latitude only); the zone is INVALID ("NaN input yields the INVALID zone") or, for sz >= 0, the requested zone
+\* ("use that zone if it is non-negative") - both are documented
+NanzOK(r) ==
+  /\ r.out = "ok" /\ r.xn /\ r.yn
+  /\ (r.zone = INVALID \/ (r.sz >= 0 /\ r.zone = r.sz))
+  /\ (r.has => IF r.zone = 0 THEN (r.w >= 2 => r.gn) /\ (r.w % 2 = 1 => r.kn) ELSE r.gn /\ r.kn)
 NanrOK(r) == r.out = "ok" /\ r.allnan
 
 Obligation(r) ==
   CASE r.e = "sz" -> SzOK(r) [] r.e = "fwd" -> FwdOK(r) [] r.e = "rev" -> RevOK(r)
     [] r.e = "zs" -> ZsOK(r) [] r.e = "ze" -> ZeOK(r) [] r.e = "epsgd" -> EpsgdOK(r) [] r.e = "epsge" -> EpsgeOK(r)
     [] r.e = "rt" -> RtOK(r) [] r.e = "gr" -> GrOK(r) [] r.e = "tr" -> TrOK(r) [] r.e = "trl" -> TrlOK(r)
-    [] r.e = "nanf" -> NanfOK(r) [] r.e = "nanr" -> NanrOK(r)
+    [] r.e = "nanf" -> NanfOK(r) [] r.e = "nanr" -> NanrOK(r) [] r.e = "nanz" -> NanzOK(r)
     [] OTHER -> FALSE
 
 Expected(r) ==
